@@ -53,7 +53,7 @@ PROPS["C17"] = {
         {"kind": "tsan", "engine": "vote", "args": ["--scale", "0.05", "--only", "threaded"], "quick": True, "timeout_s": 1800},
         {"kind": "miri", "tier": "quick", "engine": "vote", "args": ["--scale", "0.002", "--threads", "1", "--watchdog", "3000", "--only", "threaded"], "timeout_s": 3600},
     ],
-    "assumptions": ["a dropped voter counts as voting even if it had rescinded", "at most 3 parties (the only in-tree constructors)", "runtime level: a task that has not noticed that its last consumer left (silent lane) has no vote outstanding, so a downlink runtime that stays up on a silent lane is not judged; 'will see the runtime stop' is decided as bounded progress: stopped within five timeouts of virtual time"],
+    "assumptions": ["a dropped voter counts as voting even if it had rescinded", "at most 3 parties (the only in-tree constructors)", "agent runtime: with no remote registered the write task ends the agent on its own timeout without a vote (by design; such stops are judged only by the no-stop-within-a-timeout-of-a-lane-event rule); a command completely written at an earlier instant than a vote-based stop must have reached its lane", "runtime level: a task that has not noticed that its last consumer left (silent lane) has no vote outstanding, so a downlink runtime that stays up on a silent lane is not judged; 'will see the runtime stop' is decided as bounded progress: stopped within five timeouts of virtual time"],
 }
 
 _AGENT_NOTE = ("Trusted base: the harness remotes (byte-channel peers with paced/stalled/dropped readers), the lifecycle recorder of the derived agent (true lane history through on_event/on_set/on_update/on_remove/on_clear with global tickets), "
